@@ -157,7 +157,13 @@ Tick(a) ==
         ELSE IF LiteCtd(a) THEN
           /\ UNCHANGED <<pairs, nomPair, pend, nextTid, net, sel, locals, remotes, lastRx, conn>> /\ out' = EmptyBag
         ELSE IF role[a] = "controlling" /\ nomPair[a] # 0 THEN
-          Send1(a, ps[PairById(ps, nomPair[a])], TRUE) /\ UNCHANGED <<pairs, nomPair, sel, locals, remotes, lastRx, conn>>
+          \* the nomination is sticky: it is retransmitted on the pair chosen first, whatever has become valid meanwhile
+          \* (near miss "nomsticky": the unanswered nomination moves to a better valid pair)
+          LET cur == PairById(ps, nomPair[a])   b == BestValid(ps)
+              move == "nomsticky" \in Miss /\ b # 0 /\ b # cur /\ ps[b].prio > ps[cur].prio /\ Nominatable(a, ps[b]) IN
+          IF move THEN /\ pairs' = [pairs EXCEPT ![a][b].nom = TRUE] /\ nomPair' = [nomPair EXCEPT ![a] = ps[b].id]
+                       /\ Send1(a, ps[b], TRUE) /\ UNCHANGED <<sel, locals, remotes, lastRx, conn>>
+          ELSE Send1(a, ps[cur], TRUE) /\ UNCHANGED <<pairs, nomPair, sel, locals, remotes, lastRx, conn>>
         ELSE IF role[a] = "controlling" /\ BestValid(ps) # 0 /\ Nominatable(a, ps[BestValid(ps)]) THEN
           LET b == BestValid(ps) IN
           /\ pairs' = [pairs EXCEPT ![a][b].nom = TRUE] /\ nomPair' = [nomPair EXCEPT ![a] = ps[b].id]
